@@ -5,13 +5,15 @@ import random, re
 from common import *
 import runner
 from props.parts import _tracksv2_gen as G
+from props.parts import _convertv2 as CV
 
-LEAN_MODULES = ["Properties.C01V2"]
+LEAN_MODULES = ["Properties.C01V2", CV.LEAN_MODULE]
 THEOREMS = ["EngineModel.Properties.C01V2." + t for t in [
     "v2_C01_roundtrip", "v2_C01_reject", "v2_C01_total", "v2_C01_fixed_point", "v2_C01_second_write",
     "v2_C01_representable", "v2_C01_db_create", "v2_C01_db_update", "v2_C01_db_reject",
     "v2_C01_table_create", "v2_C01_table_update", "v2_C01_table_second_write",
-    "v2_C01_schema_create", "v2_C01_schema_update", "v2_C01_schema_matters"]]
+    "v2_C01_schema_create", "v2_C01_schema_update", "v2_C01_schema_matters"]] + CV.THEOREMS_C01
+TRANSLATORS = CV.TRANSLATORS
 ASSUMPTIONS = [
     "2.x: the Track table is modelled as a store of track_row values (tablePut: whole-second time stamps, SQL REAL "
     "for bpmAnalyzed, one-byte label prefix of the cue/loop blobs, UNIQUE(path)); the table layer itself is C18's "
@@ -19,6 +21,7 @@ ASSUMPTIONS = [
     "2.x: std::vector sizes are below 2^53 (w.size() * (2i+1) does not wrap)",
     "2.x: (double) of a 64-bit integer and the division producing samples-per-point are abstract in the theorems "
     "(their results never reach a snapshot) and hardware floats in the driver",
+    CV.ASSUMPTION,
 ]
 MANIFEST_TEXT = ("Schema 2.x: for all seven versions and every snapshot, writeSnap/tablePut/readSnap (mirror of "
                  "snapshot_to_row, the row store and snapshot()) returns exactly Spec.normalize, rejects exactly the "
@@ -28,7 +31,7 @@ MANIFEST_TEXT = ("Schema 2.x: for all seven versions and every snapshot, writeSn
                  "tablePut is proved equal to get∘add / get∘update of C18's table model instantiated with the column lists "
                  "regenerated from track_table.cpp; tied by differential replay of generated snapshots (snap + raw Track row + rewrite of the "
                  "read-back) with the Spec evaluated on the real library's answers.")
-TRUSTED_EXTRA = []
+TRUSTED_EXTRA = [CV.TRUSTED]
 
 
 def _case_script(c):
